@@ -130,6 +130,11 @@ class ValueTyper:
                 # (rows, columns): the row selector decides the row space
                 parts = [a for a in ui[1] if not isinstance(a, str)]
                 ts = [self.ty(p_) for p_ in parts]
+                arrays = [p_ for p_, t_ in zip(parts, ts) if isinstance(t_, Idx) or _is_mask(p_)]
+                if len(arrays) >= 2:
+                    # two array-valued selectors in one subscript are paired element-wise by numpy, they do not select the rows x columns grid
+                    self._chk("paired-index", False, _short(v), "a partition vector is an index array when rb/el/rf modes are interleaved; combined with a second "
+                              "array-valued selector numpy pairs the two element-wise (shape-mismatch error or the wrong elements): use np.ix_ or index in two steps")
                 if parts and isinstance(ts[0], Idx):
                     ti = ts[0]
                 elif ui is not None and all(t is None for t in ts):
@@ -183,6 +188,11 @@ class ValueTyper:
         return tt, tv
 
 
+def _is_mask(v):
+    u = unfn(v)
+    return u is not None and (u[0].startswith("cmp:") or u[0] in ("invert", "mask:BitAnd", "mask:BitOr"))
+
+
 def _column_selector(ix, trace):
     s = sym_name(ix)
     if s is not None:
@@ -190,6 +200,10 @@ def _column_selector(ix, trace):
     u = unfn(ix)
     if u is None:
         return ix.is_const() if isinstance(ix, F.Rat) else False
+    if u[0].startswith("ax") and u[0][2:].isdigit():
+        return True           # a selector on a later axis: the rows are untouched
+    if u[0] == "tuple" and u[1] and not isinstance(u[1][0], str) and sym_name(u[1][0]) == ":":
+        return True
     return u[0].startswith("cmp:") or u[0] in ("slice", "invert", "not", "mask:BitAnd", "mask:BitOr")
 
 
